@@ -117,6 +117,51 @@ const TOWER_EXPS: [&str; 16] = ["1", "-1", "2", "32767", "32768", "-32768", "655
 const TOWER_FORMS: [&str; 7] = ["({u}^{a})^{b}", "1/({u}^{a})^{b}", "1 + ({u}^{a})^{b}", "({u}^{a})^{b} -> m", "(({u}^{a})^{b})^2", "({u}^{a})^{b} ({u}^{a})^{b}", "({u}^{a})^{b} / ({u}^{a})^{b}"];
 const TOWER_UNITS: [&str; 4] = ["m", "kg", "s", "(m kg s)"];
 
+/// Conversion targets that look like time-zone names in some spelling: every case variant the
+/// parser might accept and the evaluator might not.
+/// Powers of magnitude 2^61..2^63, then summed, negated, multiplied and shown.  The last form keeps
+/// the dimensionality small (s x Hz cancels) while the *named* powers of the conversion target add up.
+const SUM_POWERS: [&str; 9] = [
+    "(({u}^2147483647)^1073741824)",
+    "(({u}^-2147483647)^1073741824)",
+    "(({u}^2147483647)^1073741823)",
+    "(({u}^2147483647)^2147483647)",
+    "(({u}^-2147483647)^2147483647)",
+    "((({u}^-2097152)^2097152)^524288)",
+    "((({u}^-2097152)^2097152)^1048576)",
+    "((({u}^-2097152)^2097152)^2097152)",
+    "((({u}^2097152)^2097152)^2097151)",
+];
+const SUM_FORMS: [&str; 20] = [
+    "{x}",
+    "1/{x}",
+    "{x}*{x}",
+    "{x}*{x}*{x}",
+    "{x}*{x}*{x}*{x}",
+    "{x} {x} {x} {x}",
+    "{x}/(1/{x})",
+    "1/{x}/{x}/{x}/{x}",
+    "{x}^2",
+    "{x}^4",
+    "{x}^-4",
+    "-{x}",
+    "{x} + {x}",
+    "{x}/{x}",
+    "{x} -> m",
+    "{x}*{x} -> {x}",
+    "{x} -> 1/{x}",
+    "1 -> {x}*{x}*{x}*{x}*{x}",
+    "1 -> {x} * {h} * {x} * {h} * {x} * {h} * {x} * {h} * {x} * {h}",
+    "1 -> {x} / (1/{h}) / (1/{x}) / (1/{h}) / (1/{x}) / (1/{h}) / (1/{x}) / (1/{h}) / (1/{x}) / (1/{h})",
+];
+const SUM_UNITS: [&str; 3] = ["m", "s", "kg"];
+const ZONE_WORDS: [&str; 30] = [
+    "utc", "UTC", "Utc", "gmt", "GMT", "est", "EST", "mst", "hst", "cet", "eet", "met", "wet", "uct", "prc", "roc", "rok", "nz", "NZ", "gb", "GB", "us/pacific", "US/Pacific", "US/PACIFIC",
+    "europe/london", "Europe/London", "z", "Z", "local", "\"utc\"",
+];
+const ZONE_SOURCES: [&str; 4] = ["now", "#2020-01-01 12:00#", "5 m", "3"];
+const ZONE_ARROWS: [&str; 3] = ["->", "to", "in"];
+
 const SEED_SRC: &str = include_str!("/repo/core/tests/query.rs");
 const MANUAL: &str = include_str!("/repo/docs/rink.7.adoc");
 
@@ -229,7 +274,7 @@ pub fn unit_tower(text: &str) -> bool {
         rest.push(chars[i]);
         i += 1;
     }
-    pows >= 1 && rest.split(|c: char| " ()/+->".contains(c)).all(|w| matches!(w, "" | "m" | "kg" | "s" | "1"))
+    pows >= 1 && rest.split(|c: char| " ()/+->*".contains(c)).all(|w| matches!(w, "" | "m" | "kg" | "s" | "1" | "Hz"))
 }
 
 /// Inputs whose exact result may itself be astronomically large: they may time out or exhaust
@@ -347,6 +392,8 @@ impl C04 {
         fams.add("digit-count modifiers", vec![DIGIT_SUBJECTS.len() as u64, DIGIT_COUNTS.len() as u64, DIGIT_TAILS.len() as u64]);
         fams.add("unit-list shapes with ans", vec![LIST_SHAPES.len() as u64]);
         fams.add("unit powers composed from small exponents", vec![TOWER_UNITS.len() as u64, TOWER_EXPS.len() as u64, TOWER_EXPS.len() as u64, TOWER_FORMS.len() as u64]);
+        fams.add("sums, negations and products of unit powers near the exponent range", vec![SUM_UNITS.len() as u64, SUM_POWERS.len() as u64, SUM_FORMS.len() as u64]);
+        fams.add("conversion to zone-like words in every case", vec![ZONE_WORDS.len() as u64, ZONE_SOURCES.len() as u64, ZONE_ARROWS.len() as u64]);
         fams.add("date literals with boundary years", vec![DATE_YEARS.len() as u64, DATE_FORMS.len() as u64, DATE_ERAS.len() as u64, DATE_TAILS.len() as u64]);
         fams.add("numeral modes through the query path", vec![6, 5, 7, 4]);
         fams.add("conversion targets: `3 m -> T` for every small tree T", vec![gen_t.total()]);
@@ -483,6 +530,18 @@ impl C04 {
         }
         if name.starts_with("unit powers composed") {
             return Some(TOWER_FORMS[d[3] as usize].replace("{u}", TOWER_UNITS[d[0] as usize]).replace("{a}", TOWER_EXPS[d[1] as usize]).replace("{b}", TOWER_EXPS[d[2] as usize]));
+        }
+        if name.starts_with("sums, negations") {
+            let x = SUM_POWERS[d[1] as usize].replace("{u}", SUM_UNITS[d[0] as usize]);
+            // the counterpart whose dimensionality cancels x's under another name
+            let h = SUM_POWERS[d[1] as usize].replace("{u}", "Hz");
+            let x_s = SUM_POWERS[d[1] as usize].replace("{u}", "s");
+            let f = SUM_FORMS[d[2] as usize];
+            let x = if f.contains("{h}") { x_s } else { x };
+            return Some(f.replace("{x}", &x).replace("{h}", &h));
+        }
+        if name.starts_with("conversion to zone-like") {
+            return Some(format!("{} {} {}", ZONE_SOURCES[d[1] as usize], ZONE_ARROWS[d[2] as usize], ZONE_WORDS[d[0] as usize]));
         }
         if name.starts_with("date literals") {
             return Some(format!("{}{}", DATE_FORMS[d[1] as usize].replace("{y}", DATE_YEARS[d[0] as usize]).replace("{e}", DATE_ERAS[d[2] as usize]), DATE_TAILS[d[3] as usize]));
@@ -624,7 +683,7 @@ impl Space for C04 {
         Meta {
             id: "C04",
             level: "exploration",
-            rule: "four exhaustive families evaluated through rink_core::eval on a long-lived context (ans preset per case from a 6-value pool incl. a zero time and NaN), every reply rendered as Display, recursive span tree and serde_json: (1) all token sequences of length <= 3 (thorough 4) over a 68-token alphabet with one token per lexer/parser branch; (2) grammar-directed trees with unit/substance/date/zero leaves; (3) every single-character deviation (delete, duplicate, swap, insert/replace with each special character) at every position of every query string of core/tests/query.rs and the manual; (4) depth/length ladders up to 500 characters for 38 repeating units, all 1- and 2- (thorough 3-) character strings over a 160-character alphabet; (4a) unit powers composed from small exponents, `(u^a)^b` in 7 contexts for 16x16 exponent pairs whose products reach +-2^31, +-2^32, +-2^63 (cheap by construction: the exact result is 1 x unit^k, so the 5 s limit applies); (4b) date literals: 14 boundary years (0, 1, 9999, 10000, chrono's limits +-262144, +-2^31, 2^63-1) x 8 pattern forms x 5 eras x 3 continuations; (5) the same inputs through the real `rink -f -` binary in batches with a sentinel after each input. Oracle: Ok or Err within 5 s, a well-formed span tree (no list separator outside a list: the CLI's indentation arithmetic underflows otherwise), no panic/abort/stack overflow (8 MiB)/2 GiB; canary `1 + 1` after every failure and every 1000 cases. Inputs classified expensive by a static rule (exponent/shift/power towers, >= 4-digit exponent literals) may time out but not panic. Non-trivial = the input produced a reply or an error (not a skipped index); distinct by input text".into(),
+            rule: "four exhaustive families evaluated through rink_core::eval on a long-lived context (ans preset per case from a 6-value pool incl. a zero time and NaN), every reply rendered as Display, recursive span tree and serde_json: (1) all token sequences of length <= 3 (thorough 4) over a 68-token alphabet with one token per lexer/parser branch; (2) grammar-directed trees with unit/substance/date/zero leaves; (3) every single-character deviation (delete, duplicate, swap, insert/replace with each special character) at every position of every query string of core/tests/query.rs and the manual; (4) depth/length ladders up to 500 characters for 38 repeating units, all 1- and 2- (thorough 3-) character strings over a 160-character alphabet; (4a) unit powers composed from small exponents, `(u^a)^b` in 7 contexts for 16x16 exponent pairs whose products reach +-2^31, +-2^32, +-2^63 (cheap by construction: the exact result is 1 x unit^k, so the 5 s limit applies); (4d) 3 base units x 9 nested powers of magnitude 2^61..2^63 x 20 forms that add, negate, multiply and print them, incl. conversion targets whose named powers add up while the dimensionality cancels (s x Hz); (4c) conversions to 30 zone-like words in every case (utc/UTC/Utc, gb/GB, us/pacific, ...) from 4 sources with all three arrows; (4b) date literals: 14 boundary years (0, 1, 9999, 10000, chrono's limits +-262144, +-2^31, 2^63-1) x 8 pattern forms x 5 eras x 3 continuations; (5) the same inputs through the real `rink -f -` binary in batches with a sentinel after each input. Oracle: Ok or Err within 5 s, a well-formed span tree (no list separator outside a list: the CLI's indentation arithmetic underflows otherwise), no panic/abort/stack overflow (8 MiB)/2 GiB; canary `1 + 1` after every failure and every 1000 cases. Inputs classified expensive by a static rule (exponent/shift/power towers, >= 4-digit exponent literals) may time out but not panic. Non-trivial = the input produced a reply or an error (not a skipped index); distinct by input text".into(),
             assumptions: vec![
                 "8 MiB stack and 2 GiB address space stand for the resource envelope of a chat bot / CLI".into(),
                 "`ans` before each case is a deterministic function of the case index so that every failure replays in isolation".into(),
